@@ -1,7 +1,7 @@
 //! C11 — on-chain conclusions depend only on the chain, not on how it was delivered.
 //!
 //! Differential check: one scenario (world, traffic prefix leaving pending HTLCs, force close or none, a chain
-//! script with forks of depth 1..=ANTI_REORG_DELAY) is executed k = 3..4 times; the node under observation is
+//! script with forks of depth 1..=ANTI_REORG_DELAY) is executed k = 3..5 times; the node under observation is
 //! told about the identical block tree through different `Listen` / `Confirm` schedules (engine and the
 //! contract rules it follows: `netsim::ext_c11`). Oracles: (a) equal conclusions at every common tip,
 //! (b) nothing irreversible before burial, (c) retraction after shallow reorgs (through (a) against the replica
@@ -87,15 +87,25 @@ fn disc_strat() -> impl Strategy<Value = Disc> {
 
 /// a replica driven only by the repo's own eleven styles, changed from step to step
 fn styled_plan() -> impl Strategy<Value = Plan> {
-	proptest::collection::vec((0u8..11, 0u8..11), 1..4).prop_map(|v| Plan { final_only: false, steps: v.into_iter().map(|(a, b)| PStep { lag: false, conn: Conn::Helper(a), disc: Disc::Helper(b) }).collect() })
+	proptest::collection::vec((0u8..11, 0u8..11), 1..4).prop_map(|v| Plan { final_only: false, steps: v.into_iter().map(|(a, b)| PStep { lag: false, conn: Conn::Helper(a), disc: Disc::Helper(b), reload: false }).collect() })
 }
 
 fn mixed_plan() -> impl Strategy<Value = Plan> {
-	proptest::collection::vec((proptest::bool::weighted(0.2), conn_strat(), disc_strat()), 2..7).prop_map(|v| Plan { final_only: false, steps: v.into_iter().map(|(lag, conn, disc)| PStep { lag, conn, disc }).collect() })
+	proptest::collection::vec((proptest::bool::weighted(0.2), conn_strat(), disc_strat(), proptest::bool::weighted(0.08)), 2..7).prop_map(|v| Plan { final_only: false, steps: v.into_iter().map(|(lag, conn, disc, reload)| PStep { lag, conn, disc, reload }).collect() })
+}
+
+/// a replica whose node is restarted often (after 30-60 % of the trace events), with the notification style changing
+/// from step to step: styles mixed across restarts
+fn reload_plan() -> impl Strategy<Value = Plan> {
+	(prop_oneof![Just(0.3f64), Just(0.6f64)], any::<bool>()).prop_flat_map(|(w, helpers)| {
+		let conn = if helpers { (0u8..11).prop_map(Conn::Helper).boxed() } else { conn_strat().boxed() };
+		let disc = if helpers { (0u8..11).prop_map(Disc::Helper).boxed() } else { disc_strat().boxed() };
+		proptest::collection::vec((proptest::bool::weighted(0.1), conn, disc, proptest::bool::weighted(w)), 2..8).prop_map(|v| Plan { final_only: false, steps: v.into_iter().map(|(lag, conn, disc, reload)| PStep { lag, conn, disc, reload }).collect() })
+	})
 }
 
 fn linear_plan() -> impl Strategy<Value = Plan> {
-	proptest::collection::vec((conn_strat(), disc_strat()), 1..3).prop_map(|v| Plan { final_only: true, steps: v.into_iter().map(|(conn, disc)| PStep { lag: false, conn, disc }).collect() })
+	proptest::collection::vec((conn_strat(), disc_strat()), 1..3).prop_map(|v| Plan { final_only: true, steps: v.into_iter().map(|(conn, disc)| PStep { lag: false, conn, disc, reload: false }).collect() })
 }
 
 fn strat(max_steps: usize) -> impl Strategy<Value = Case> {
@@ -111,10 +121,13 @@ fn strat(max_steps: usize) -> impl Strategy<Value = Case> {
 		prop_oneof![3 => proptest::collection::vec(step_strat(), 4..max_steps).boxed(), 2 => patterned_script().boxed()],
 	)
 		.prop_map(|(spec, prefix, observed, closure, script)| Scenario { spec, prefix, observed, closure, script });
-	let plans = (prop_oneof![styled_plan().boxed(), mixed_plan().boxed()], proptest::option::weighted(0.6, mixed_plan()), linear_plan()).prop_map(|(a, b, c)| {
+	let plans = (prop_oneof![styled_plan().boxed(), mixed_plan().boxed()], proptest::option::weighted(0.5, mixed_plan()), proptest::option::weighted(0.55, reload_plan()), linear_plan()).prop_map(|(a, b, r, c)| {
 		let mut v = vec![a];
 		if let Some(b) = b {
 			v.push(b);
+		}
+		if let Some(r) = r {
+			v.push(r);
 		}
 		v.push(c);
 		v
@@ -385,13 +398,13 @@ fn main() {
 	c.assume("conclusions are compared only between replicas that hold the same knowledge beyond the current best chain: a replica that was shown a counterparty commitment only in a losing fork, was told a higher block than the current tip (the library fails HTLCs back / closes channels / matures CSV outputs from the height alone), received a claim close to an HTLC expiry while its view lagged, or saw a channel transaction reach ANTI_REORG_DELAY confirmations that later lost them, is compared on best block only; a preimage shown only in a losing fork limits the comparison to best block, relevant txids, spendable outputs and (two-node worlds) claim sets");
 	c.assume("ClosureReason classes are not compared (HTLCsTimedOut vs CommitmentTxConfirmed depends on the call schedule), transient broadcasts are not compared; the set of outputs being claimed is probed with ChainMonitor::rebroadcast_pending_claims at common tips, restricted to outputs that exist on the told chain, excluding wallet fee inputs, and not right after a bare disconnection (time-driven claims are re-derived with the next block)");
 	c.assume("burial oracle (b): fail-backs are checked for HTLCs the node had fully committed outbound when the script starts, not failed by the peer off-chain, and not within LATENCY_GRACE_PERIOD_BLOCKS of the inbound expiry (documented early fail-back); the HTLC output of a payment hash is recognised from witness scripts revealed by any transaction seen (contains RIPEMD160(payment_hash))");
-	c.assume("reorgs never reach the channel-establishment blocks (funding is never unconfirmed); restarts are not part of the delivery plans; manager-before-monitor call order is generated as a legal schedule");
+	c.assume("reorgs never reach the channel-establishment blocks (funding is never unconfirmed); a delivery plan may reload the observed node between two trace events (manager and monitors written, read back and installed as they are, peers reconnected, nothing re-told about the chain: the chain client simply carries on, possibly in another style) - a reloaded replica's event-derived views are compared as sets because a restarted node may repeat an event; manager-before-monitor call order is generated as a legal schedule");
 	c.assume("library panics that are not C11 verdicts are labelled, not failed: the test broadcaster's broadcast-before-locktime tripwire (C07), debug assertions in a node other than the observed one, the OnchainTxHandler duplicate-claim-id debug assertion after a commitment was reorganised out and re-confirmed (benign in release), and any panic after a transaction that had ANTI_REORG_DELAY confirmations was reorganised out (outside the property)");
 	c.set_case_timeout_secs(240);
 	c.part_with(
 		PartSpec {
 			name: "delivery-equivalence",
-			rule: "pair / line-of-3 worlds, traffic leaving pending HTLCs, force close by either side (told or silent) or none, chain script of mined candidate sets, runs of empty blocks, jumps to HTLC expiries, late claims and forks of depth 1..6 whose competing branch re-mines / delays / replaces by a conflicting spend / drops each removed transaction; 3-4 replicas: plain Listen, the eleven ConnectStyles switched per step, Confirm/Listen mixes (filtered, duplicated, split, best-block first or skipped, per-tx unconfirm, fork-point disconnect in one or several calls, lagging), and one that only ever sees the final chain. Non-trivial: a reorg removed >=1 channel transaction and replicas with different call schedules were compared at a common tip afterwards",
+			rule: "pair / line-of-3 worlds, traffic leaving pending HTLCs, force close by either side (told or silent) or none, chain script of mined candidate sets, runs of empty blocks, jumps to HTLC expiries, late claims and forks of depth 1..6 whose competing branch re-mines / delays / replaces by a conflicting spend / drops each removed transaction; 3-4 replicas: plain Listen, the eleven ConnectStyles switched per step, Confirm/Listen mixes (filtered, duplicated, split, best-block first or skipped, per-tx unconfirm, fork-point disconnect in one or several calls, lagging), in about half of the cases one whose node is reloaded from its own serialized manager and monitors after 30-60 % of the trace events with the style changing across the reloads, and one that only ever sees the final chain. Non-trivial: a reorg removed >=1 channel transaction and replicas with different call schedules were compared at a common tip afterwards",
 			quick_cases: 800,
 			thorough_cases: 24_000,
 			max_shrink: 40,
